@@ -285,6 +285,8 @@ func runC11(p *P, r *R) {
 
 	// a close from any starting state closes the notify channel (shared with C10 R10.3)
 	borrow(p, r, "C10", runC10, map[string]string{"R10.3": "R11.3"}, func(o Ob) bool { return constructHas(o, "closes the notify channel") })
+	// the writer parked after EAGAIN is released by every EPOLLOUT edge (shared with C18 R18.7)
+	epollDemux(p, r, "R11.9")
 	c11ReadMore(p, r)
 	c11FlushBound(p, r)
 	r.count("R11.6", "one-shot timers awaited in loops", timerRearmed(p, r, "R11.6", nil), 1)
